@@ -32,6 +32,10 @@ def classify(case):
         return "407-without-challenge"
     if case.get("prev_spec") and q.get("cred_tag") == "other-proxys-credentials" and st != 407:
         return "credentials-accepted-by-another-proxy-of-the-process-open-this-one"
+    if (case.get("spec") or {}).get("handler") and q.get("form") == "origin" and (st == 500 or o.get("from_peer")):
+        return "handler-variant-origin-form-request-not-judged-by-its-host-field"
+    if ct.startswith(("value-", "token-")) and st != 407 and (case.get("spec") or {}).get("auth"):
+        return "case-folded-header-value-accepted-after-an-accepted-request"
     tf = (case.get("spec") or {}).get("time_frame")
     clk = case.get("clock")
     if tf and clk:
